@@ -471,8 +471,33 @@ func (c *c04) genRandom(seed int64, base, n int) {
 					items = append(items, ManyItem{Item: valid[pi], Sub: subOf(randLike(r, kids[pi], 3, cfg))})
 				}
 				if r.Intn(2) == 0 {
-					it, nv, ok := insertOp(r, nil, cv, cfg)
-					if ok && (k0 == "" || it.K == k0) {
+					// one to three inserts in the same call; for string-keyed maps the new keys are of one length
+					// ("k_a", "k_b", ...: the second and third are variants of the first)
+					var first PItem
+					for t, nins := 0, 1+r.Intn(3); t < nins; t++ {
+						it, nv, ok := insertOp(r, nil, cv, cfg)
+						if !ok || !(k0 == "" || it.K == k0) {
+							break
+						}
+						if t == 0 {
+							first = it
+						} else if it.K == "idx" {
+							break // a list takes one element past its end
+						} else if it.K == "str" && len(first.B) > 0 {
+							it.B = append(B{}, first.B...)
+							it.B[len(it.B)-1] ^= byte(t)
+						}
+						dup := false
+						for _, x := range items {
+							dup = dup || (x.Item.K == it.K && x.Item.N == it.N && string(x.Item.B) == string(it.B))
+						}
+						for _, pr := range cv.P {
+							dup = dup || (it.K == "str" && string(pr.K.B) == string(it.B))
+						}
+						if dup {
+							continue
+						}
+						k0 = it.K
 						items = append(items, ManyItem{Item: it, Sub: subOf(nv)})
 					}
 				}
